@@ -300,6 +300,18 @@ def judge_readback(solved_stored, solution_text, res, classes_by_name, year, F, 
             source = 'PDFFiller._values'
         except Exception:
             pass
+    # enumerations by member: a value read back must be a member of the enumeration of the line that reads it
+    import enum as _enum
+    for q, v in sorted(vals.items()):
+        if isinstance(v, _enum.Enum) and hasattr(fields[q], 'enum') and not isinstance(v, fields[q].enum()):
+            fs.append(F('C14', 'C14.enum', 'foreign-member', f'{q} reads back as {v!r}, which is not a member of the line\'s own enumeration'))
+            break
+    if source == 'PDFFiller._values' and hasattr(res.filler, '_field_map'):
+        for q, v in sorted(cmp_vals.items()):
+            fld = res.filler._field_map.get(q)
+            if isinstance(v, _enum.Enum) and fld is not None and hasattr(fld, 'enum') and not isinstance(v, fld.enum()):
+                fs.append(F('C14', 'C14.enum', 'foreign-member', f'{q}: the PDF filler holds {v!r}, which is not a member of the enumeration of the line it was read through'))
+                break
     for q, nv in sorted(solved_stored.items()):
         if q not in cmp_vals:
             if q in vals or source == 'own-from_string':
